@@ -94,6 +94,88 @@ _LESS_GEN_PROOF = """Theorem x_TargetName_Gen : forall f, x_Function_TargetName 
 Proof. intros f. unfold x_Function_TargetName, Gen.target_name, to_gen, strings_Join, Gen.nonempty. go_record f. go_auto. Qed.
 """
 
+_ENV_REQ = """From Mage Require Import Model.EnvSpec Proof.EnvSpec_facts.
+From Mage Require Model.Flags Model.Constraints.
+From Coq Require Import Permutation.
+"""
+
+# x_SplitEnv / x_joinEnv are what Model/EnvSpec.v says (the loop with its early return; the fold over an arbitrary order)
+_SPLITENV_PROOF = """Theorem x_SplitEnv_spec : forall env,
+  match env_split env [] with
+  | Some m => x_SplitEnv env = (m, None)
+  | None => fst (x_SplitEnv env) = [] /\\ snd (x_SplitEnv env) <> None
+  end.
+Proof.
+  intros env. unfold x_SplitEnv. cbv zeta. go_returned.
+  match goal with |- context [fold_left ?f env (?n, _)] =>
+    assert (G : forall env (out : list (string * string)),
+      match env_split env out with
+      | Some m => fold_left f env (n, out) = (n, m)
+      | None => exists r st, fold_left f env (n, out) = (Some r, st) /\\ fst r = [] /\\ snd r <> None
+      end)
+  end.
+  { clear env. induction env as [|s env IH]; intros out; cbn [fold_left env_split]; [reflexivity|].
+    change "="%string with (String eq_byte EmptyString). rewrite ?strings_SplitN_2_char.
+    destruct (split_first eq_byte s) as [[k v]|]; cbn.
+    - apply IH.
+    - rewrite Hret. eexists _, _. repeat split; cbn; try reflexivity; discriminate. }
+  specialize (G env []). destruct (env_split env []).
+  - rewrite G. reflexivity.
+  - destruct G as (r & st & -> & ? & ?). auto.
+Qed.
+Theorem x_joinEnv_spec : forall ord m, x_joinEnv ord m = map join_kv (ord m).
+Proof.
+  intros ord m. unfold x_joinEnv. cbv zeta. try go_loops. go_norm.
+  induction (ord m) as [|[k v] l IH]; cbn [flat_map map app fold_left]; [reflexivity|].
+  rewrite ?IH. unfold join_kv. cbn [fst snd]. go_norm. reflexivity.
+Qed.
+"""
+
+_GOOS_PROOF = """Theorem x_EnvWithGOOS_spec : forall ord environ rt_goarch rt_goos goos goarch,
+  match env_split environ [] with
+  | Some m => x_EnvWithGOOS ord environ rt_goarch rt_goos goos goarch = (x_joinEnv ord (goos_env m rt_goos rt_goarch goos goarch), None)
+  | None => fst (x_EnvWithGOOS ord environ rt_goarch rt_goos goos goarch) = [] /\\ snd (x_EnvWithGOOS ord environ rt_goarch rt_goos goos goarch) <> None
+  end.
+Proof.
+  intros. unfold x_EnvWithGOOS, goos_env. pose proof (x_SplitEnv_spec environ) as S.
+  destruct (env_split environ []) as [m|].
+  - rewrite S. cbn [is_nil negb]. go_cases; reflexivity.
+  - destruct (x_SplitEnv environ) as [m e]. cbn [fst snd] in S. destruct S as [-> S].
+    destruct e; [|congruence]. cbn. split; [reflexivity|discriminate].
+Qed.
+Theorem x_EnvWithCurrentGOOS_spec : forall ord environ rt_goarch rt_goos,
+  match env_split environ [] with
+  | Some m => x_EnvWithCurrentGOOS ord environ rt_goarch rt_goos = (x_joinEnv ord (goos_env m rt_goos rt_goarch "" ""), None)
+  | None => fst (x_EnvWithCurrentGOOS ord environ rt_goarch rt_goos) = [] /\\ snd (x_EnvWithCurrentGOOS ord environ rt_goarch rt_goos) <> None
+  end.
+Proof.
+  intros. unfold x_EnvWithCurrentGOOS, goos_env. pose proof (x_SplitEnv_spec environ) as S.
+  destruct (env_split environ []) as [m|].
+  - rewrite S. cbn [is_nil negb String.eqb]. go_cases; reflexivity.
+  - destruct (x_SplitEnv environ) as [m e]. cbn [fst snd] in S. destruct S as [-> S].
+    destruct e; [|congruence]. cbn. split; [reflexivity|discriminate].
+Qed.
+"""
+
+_ENV_GRID = """Definition entries := ["A=1"; "B="; "A=2"; "C=x=y"; "=v"; "noeq"; ""; "D= a b"; "GOOS=plan9"].
+Definition show_split (r : gomap string * option string) : list string :=
+  (if is_nil (snd r) then "ok" else "error") :: map join_kv (fst r).
+Definition show_spec (r : option (gomap string)) : list string :=
+  match r with Some m => "ok" :: map join_kv m | None => ["error"] end.
+"""
+_GOOS_GRID = """Definition envs := words_upto entries 2.
+Definition grid := pairs envs (pairs [""; "linux"] [""; "arm"]).
+Definition show_env (r : list string * option string) : list string := (if is_nil (snd r) then "ok" else "error") :: fst r.
+Definition D1 := diffs (list_eqb String.eqb) (fun x => [["EnvWithGOOS"]; fst x; [fst (snd x)]; [snd (snd x)]]) (fun r => r)
+  (fun x => show_env (x_EnvWithGOOS (fun m => m) (fst x) "rtarch" "rtos" (fst (snd x)) (snd (snd x))))
+  (fun x => match env_split (fst x) [] with Some m => "ok" :: map join_kv (goos_env m "rtos" "rtarch" (fst (snd x)) (snd (snd x))) | None => ["error"] end) grid.
+Definition D2 := diffs (list_eqb String.eqb) (fun x => [["EnvWithCurrentGOOS"]; fst x; [""]; [""]]) (fun r => r)
+  (fun x => show_env (x_EnvWithCurrentGOOS (fun m => m) (fst x) "rtarch" "rtos"))
+  (fun x => match env_split (fst x) [] with Some m => "ok" :: map join_kv (goos_env m "rtos" "rtarch" "" "") | None => ["error"] end)
+  (map (fun e => (e, ("", ""))) envs).
+Definition D := Eval vm_compute in firstn 3 (D1 ++ D2)%list.
+"""
+
 # name: file, names given to the translator, Go functions whose text goes into a replay, Coq requires,
 #       definitions shared by proof and search, the theorems (name list must match the text), the grid search
 #       (must define D : the first differing inputs as (arguments, translated result, model result), N : grid size),
@@ -284,6 +366,179 @@ Qed.
 Definition D := Eval vm_compute in firstn 3 (diffs String.eqb (fun x => [[x]]) show_str x_displayName displayName_spec grid).
 """,
         "args": ["name"], "replay": None},
+
+    # ---------------------------------------------------------------- maps, several results, process environment
+    "SplitEnv": {
+        "file": "internal/run.go", "names": "SplitEnv,joinEnv", "src": ["SplitEnv", "joinEnv"],
+        "model": "Model/EnvSpec.env_split / join_kv, read in C11's environment model (Model/Flags.lookup: the last entry of a name wins; Flags.dedup_env: what os/exec keeps)",
+        "requires": _ENV_REQ, "defs": "",
+        "theorems": ["x_SplitEnv_spec", "x_joinEnv_spec", "x_SplitEnv_map", "x_SplitEnv_error", "x_joinEnv_SplitEnv_last_wins", "x_joinEnv_SplitEnv_perm"],
+        "agree": _SPLITENV_PROOF + """
+(* a well-formed list: no error; for every name the value of its LAST entry, cut at the FIRST '=' (values with
+   '=' or blanks and empty values intact) *)
+Theorem x_SplitEnv_map : forall env, Forall (fun s => well_formed s = true) env ->
+  snd (x_SplitEnv env) = None /\\ map_wf (fst (x_SplitEnv env)) /\\
+  forall k, map_find (fst (x_SplitEnv env)) k = Flags.lookup k (env_pairs env).
+Proof.
+  intros env F. pose proof (x_SplitEnv_spec env) as S. apply (env_split_Some env []) in F as [m E].
+  rewrite E in S. rewrite S. cbn [fst snd]. repeat split.
+  - eapply env_split_wf; eauto. apply map_wf_nil.
+  - intros k. rewrite (env_split_find _ _ _ E k). cbn. now destruct (Flags.lookup k (env_pairs env)).
+Qed.
+(* the error case: exactly the lists with an entry without '=' *)
+Theorem x_SplitEnv_error : forall env, snd (x_SplitEnv env) <> None <-> Exists (fun s => well_formed s = false) env.
+Proof.
+  intros env. pose proof (x_SplitEnv_spec env) as S. rewrite <- (env_split_None env []).
+  destruct (env_split env []); [rewrite S; cbn; split; congruence|]. destruct S as [_ S]. tauto.
+Qed.
+(* joinEnv(SplitEnv(env)), FOR ALL iteration orders of the map: with duplicate names the last entry wins (what
+   os/exec would keep), with distinct names it is a permutation of env *)
+Theorem x_joinEnv_SplitEnv_last_wins : forall ord env, is_order ord -> Forall (fun s => well_formed s = true) env ->
+  Permutation (x_joinEnv ord (fst (x_SplitEnv env))) (map join_kv (Flags.dedup_env (env_pairs env))).
+Proof.
+  intros ord env O F. pose proof (x_SplitEnv_spec env) as S. apply (env_split_Some env []) in F as [m E].
+  rewrite E in S. rewrite S, x_joinEnv_spec. cbn [fst].
+  eapply Permutation_trans; [apply Permutation_map, O|]. apply Permutation_map. now apply env_split_last_wins.
+Qed.
+Theorem x_joinEnv_SplitEnv_perm : forall ord env, is_order ord -> Forall (fun s => well_formed s = true) env ->
+  NoDup (map fst (env_pairs env)) -> Permutation (x_joinEnv ord (fst (x_SplitEnv env))) env.
+Proof.
+  intros ord env O F N. pose proof (x_SplitEnv_spec env) as S. apply (env_split_Some env []) in F as [m E].
+  rewrite E in S. rewrite S, x_joinEnv_spec. cbn [fst].
+  eapply Permutation_trans; [apply Permutation_map, O|]. now apply env_join_split_perm.
+Qed.
+""",
+        "search": _ENV_GRID + """Definition grid := words_upto entries 3.
+Definition D1 := diffs (list_eqb String.eqb) (fun env => [["SplitEnv"]; env]) (fun r => r)
+  (fun env => show_split (x_SplitEnv env)) (fun env => show_spec (env_split env [])) grid.
+Definition D2 := diffs (list_eqb String.eqb) (fun env => [["joinEnv(SplitEnv), reversed order"]; env]) (fun r => r)
+  (fun env => x_joinEnv (@rev _) (fst (x_SplitEnv env))) (fun env => match env_split env [] with Some m => map join_kv (rev m) | None => [] end) grid.
+Definition D := Eval vm_compute in firstn 3 (D1 ++ D2)%list.
+""",
+        "args": ["op", "env"], "replay": None},
+    "EnvWithGOOS": {
+        "file": "internal/run.go", "names": "SplitEnv,joinEnv,EnvWithGOOS!os_Environ!runtime_GOARCH!runtime_GOOS,EnvWithCurrentGOOS!os_Environ!runtime_GOARCH!runtime_GOOS", "src": ["EnvWithGOOS", "EnvWithCurrentGOOS", "SplitEnv", "joinEnv"],
+        "model": "Model/EnvSpec.goos_env over env_split, read in C11's environment model (Model/Flags.lookup); os.Environ(), runtime.GOOS, runtime.GOARCH are parameters",
+        "requires": _ENV_REQ, "defs": "",
+        "theorems": ["x_SplitEnv_spec", "x_joinEnv_spec", "x_EnvWithGOOS_spec", "x_EnvWithCurrentGOOS_spec", "x_EnvWithGOOS_carries"],
+        "agree": _SPLITENV_PROOF + _GOOS_PROOF + """
+(* FOR ALL iteration orders: GOOS / GOARCH are the arguments (the runtime's when empty), every other variable
+   keeps the value the caller's environment gives it, every name occurs once *)
+Theorem x_EnvWithGOOS_carries : forall ord environ rt_goarch rt_goos goos goarch, is_order ord ->
+  Forall (fun s => well_formed s = true) environ ->
+  let r := x_EnvWithGOOS ord environ rt_goarch rt_goos goos goarch in
+  snd r = None /\\
+  Flags.lookup "GOOS" (env_pairs (fst r)) = Some (if String.eqb goos "" then rt_goos else goos) /\\
+  Flags.lookup "GOARCH" (env_pairs (fst r)) = Some (if String.eqb goarch "" then rt_goarch else goarch) /\\
+  (forall k, k <> "GOOS" -> k <> "GOARCH" -> Flags.lookup k (env_pairs (fst r)) = Flags.lookup k (env_pairs environ)) /\\
+  NoDup (map fst (env_pairs (fst r))) /\\ Forall (fun s => well_formed s = true) (fst r).
+Proof.
+  intros ord environ a b goos goarch O F r. subst r.
+  pose proof (x_EnvWithGOOS_spec ord environ a b goos goarch) as S. apply (env_split_Some environ []) in F as [m E].
+  rewrite E in S. rewrite S. cbn [fst snd]. split; [reflexivity|].
+  apply (goos_env_carries environ m); auto. rewrite x_joinEnv_spec. apply Permutation_map, O.
+Qed.
+""",
+        "search": _ENV_GRID + _GOOS_GRID,
+        "args": ["op", "environ", "goos", "goarch"], "replay": None},
+    "EnvWithGOOS/Constraints": {
+        "file": "internal/run.go", "names": "SplitEnv,joinEnv,EnvWithGOOS!os_Environ!runtime_GOARCH!runtime_GOOS,EnvWithCurrentGOOS!os_Environ!runtime_GOARCH!runtime_GOOS", "src": ["EnvWithGOOS", "SplitEnv", "joinEnv"],
+        "model": "Model/Constraints.splitEnv / envWithGOOS (C10's hand model; its theorems hold for every permutation of the list)",
+        "requires": _ENV_REQ, "defs": "",
+        "theorems": ["x_SplitEnv_spec", "x_joinEnv_spec", "x_EnvWithGOOS_spec", "x_EnvWithCurrentGOOS_spec", "x_SplitEnv_Constraints", "x_EnvWithGOOS_Constraints"],
+        "agree": _SPLITENV_PROOF + _GOOS_PROOF + """
+Theorem x_SplitEnv_Constraints : forall env,
+  match Constraints.splitEnv env with
+  | Some cm => snd (x_SplitEnv env) = None /\\ forall k, Constraints.mget k cm = map_find (fst (x_SplitEnv env)) k
+  | None => snd (x_SplitEnv env) <> None
+  end.
+Proof.
+  intros env. pose proof (x_SplitEnv_spec env) as S. pose proof (splitEnv_agrees env) as A.
+  destruct (Constraints.splitEnv env) as [cm|]; destruct (env_split env []) as [m|]; try contradiction.
+  - rewrite S. cbn [fst snd]. auto.
+  - tauto.
+Qed.
+Theorem x_EnvWithGOOS_Constraints : forall ord su goos goarch, is_order ord ->
+  let r := x_EnvWithGOOS ord (Constraints.su_environ su) (Constraints.su_hostarch su) (Constraints.su_hostos su) goos goarch in
+  match Constraints.envWithGOOS su goos goarch with
+  | Some env' => snd r = None /\\ Permutation (fst r) env'
+  | None => snd r <> None
+  end.
+Proof.
+  intros ord su goos goarch O r. subst r.
+  pose proof (x_EnvWithGOOS_spec ord (Constraints.su_environ su) (Constraints.su_hostarch su) (Constraints.su_hostos su) goos goarch) as S.
+  pose proof (envWithGOOS_agrees su goos goarch) as A.
+  destruct (Constraints.envWithGOOS su goos goarch) as [env'|]; destruct (env_split (Constraints.su_environ su) []) as [m|]; try contradiction.
+  - rewrite S. cbn [fst snd]. split; [reflexivity|]. rewrite x_joinEnv_spec.
+    eapply Permutation_trans; [apply Permutation_map, O|exact A].
+  - tauto.
+Qed.
+""",
+        "search": _ENV_GRID + _GOOS_GRID,
+        "args": ["op", "environ", "goos", "goarch"], "replay": None},
+    "checkDupeTargets": {
+        "file": "parse/parse.go", "names": "checkDupeTargets,+Function.Name,+Function.Receiver,+PkgInfo.Funcs", "src": ["checkDupeTargets"],
+        "model": "Model/Dupes.check_dupe_targets (C07; strings.ToLower read as the ASCII lower-casing Dupes.lower)",
+        "requires": "From Mage Require Import Proof.GoLib_models.\nFrom Mage Require Model.Dupes.\n",
+        "defs": """Definition to_dupes (f : x_Function) : Dupes.func :=
+  {| Dupes.f_alias := ""; Dupes.f_path := ""; Dupes.f_recv := x_Function_Receiver f; Dupes.f_name := x_Function_Name f |}.
+""",
+        "theorems": ["x_checkDupeTargets_Dupes"],
+        "agree": """Theorem x_checkDupeTargets_Dupes : forall info,
+  x_checkDupeTargets info = Dupes.check_dupe_targets (map to_dupes (x_PkgInfo_Funcs info)).
+Proof.
+  intros info. unfold x_checkDupeTargets, Dupes.check_dupe_targets. cbv zeta.
+  generalize (x_PkgInfo_Funcs info) as fs0. clear info. intros fs0.
+  match goal with |- context [fold_left ?f fs0 _] =>
+    assert (STEP : forall has (lowers : list (string * bool)) lowers' (names : list (string * list string)) x,
+      lowers_rel lowers lowers' ->
+      exists l1 l2 h1 n1, f (has, lowers, names) x = (h1, l1, n1) /\\
+        Dupes.cdt_step (has, lowers', names) (to_dupes x) = (h1, l2, n1) /\\ lowers_rel l1 l2);
+    [|assert (G : forall fs has (lowers : list (string * bool)) lowers' (names : list (string * list string)),
+      lowers_rel lowers lowers' ->
+      exists l1 l2 h1 n1,
+        fold_left f fs (has, lowers, names) = (h1, l1, n1) /\\
+        fold_left Dupes.cdt_step (map to_dupes fs) (has, lowers', names) = (h1, l2, n1))]
+  end.
+  { intros has lowers lowers' names x R. destruct x.
+    unfold Dupes.cdt_step, Dupes.low_of, to_dupes, Dupes.is_empty. cbv beta iota zeta.
+    cbn [Dupes.f_recv Dupes.f_name x_Function_Name x_Function_Receiver].
+    rewrite ?ToLower_Dupes.
+    repeat match goal with |- context [String.eqb ?a ?b] => destruct (String.eqb_spec a b) end; cbn [negb];
+      rewrite ?sapp_assoc, ?map_set_append, ?R; try congruence; eexists _, _, _, _;
+      (split; [reflexivity|split; [reflexivity|apply lowers_rel_add, R]]). }
+  { induction fs as [|x fs IH]; intros has lowers lowers' names R; cbn [fold_left map]; [eauto 8|].
+    destruct (STEP has lowers lowers' names x R) as (l1 & l2 & h1 & n1 & -> & -> & R'). apply IH, R'. }
+  destruct (G fs0 false [] [] [] lowers_rel_nil) as (l1 & l2 & h1 & n1 & E1 & E2).
+  rewrite E1, E2. reflexivity.
+Qed.
+""",
+        "search": """Definition fpool := map x_Function_mk (words ["A"; "a"; "B"; ""] x_Function_arity).
+Definition grid := words_upto fpool 3.
+Definition show_f (f : x_Function) : string := (x_Function_Receiver f ++ "." ++ x_Function_Name f)%string.
+Definition show_r (r : bool * gomap (list string)) : list string :=
+  (if fst r then "hasDupes" else "no dupes") :: map (fun kv => (fst kv ++ " -> " ++ String.concat "," (snd kv))%string) (snd r).
+Definition D := Eval vm_compute in firstn 3 (diffs (list_eqb String.eqb) (fun fs => [map show_f fs]) (fun r => r)
+  (fun fs => show_r (x_checkDupeTargets {| x_PkgInfo_Funcs := fs |})) (fun fs => show_r (Dupes.check_dupe_targets (map to_dupes fs))) grid).
+""",
+        "args": ["info.Funcs (Receiver.Name)"], "replay": None},
+    "toOneLine": {
+        "file": "parse/parse.go", "names": "toOneLine", "src": ["toOneLine"],
+        "model": "Model/Classify.toOneLine (C06; strings.TrimSpace read as trimming ASCII white space)",
+        "requires": "From Mage Require Import Proof.GoLib_models.\nFrom Mage Require Model.Classify.\n", "defs": "",
+        "theorems": ["x_toOneLine_Classify"],
+        "agree": """Theorem x_toOneLine_Classify : forall s, x_toOneLine s = Classify.toOneLine s.
+Proof.
+  intros s. unfold x_toOneLine, Classify.toOneLine. cbv zeta.
+  rewrite ?TrimSpace_Classify, ?ReplaceAll_nl_Classify. reflexivity.
+Qed.
+""",
+        "search": """Definition nl : string := bs [10].
+Definition grid := ["a"; ""; " a "; (nl ++ "a" ++ nl ++ "b" ++ nl)%string; ("a" ++ nl ++ nl ++ "b")%string; "  "; (" " ++ nl)%string;
+  (bs [9] ++ "x y" ++ bs [13])%string; ("a " ++ nl ++ " b")%string; "a  b"; nl; (nl ++ nl)%string; ("x" ++ nl)%string; (nl ++ "x")%string].
+Definition D := Eval vm_compute in firstn 3 (diffs String.eqb (fun s => [[s]]) show_str x_toOneLine Classify.toOneLine grid).
+""",
+        "args": ["s"], "replay": None},
 }
 
 
@@ -324,7 +579,7 @@ def _fn_input(it, translated, args):
             out["%s#%d" % (name, k)] = dict(zip(_fn_fields(translated, name), val))
         elif name in ("i", "j"):
             out[name] = int(val[0])
-        elif name in ("op", "prefix", "name"):
+        elif name in ("op", "prefix", "name", "goos", "goarch", "s"):
             out[name] = val[0]
         else:
             out[name] = val
@@ -414,7 +669,7 @@ def _fn_tie(ctx, names):
             ctx.notes.append("the translation of %s (or the statement about it) was not accepted by Coq (%s); only the behavioural tie applies" % (n, msg))
             cov[n] = "untranslatable: rejected by Coq: " + msg[-160:]
             continue
-        found = _coq_term(re.sub(r"\s+", " ", mD.group(1)))
+        found = _coq_term(mD.group(1))          # (white space inside string literals is data: not normalised)
         npts = int(mN.group(1))
         if not found:
             ctx.notes.append("agreement proof for %s did not go through on this run; no differing input on %d grid points; behavioural tie decides" % (n, npts))
